@@ -29,7 +29,10 @@ Call == /\ Live("call")
                sus1 == IF "single" \in DOMAIN s.stim /\ s.stim.single THEN downNow ELSE s.sus \cup downNow
                clean == live # {} /\ sus1 = {} IN
            /\ JudgeK(<< <<"C14.EveryCallCompletes", (E.res = "pending") => live = {}>>,
-                        <<"C14.DefiniteResult", E.res \in {"ok", "unavailable", "pending"}>>,
+                        \* (real sockets, real time: a call can be dispatched onto an established connection whose server is just going down - it is
+                        \* then cut off in flight, with whatever status the transport error maps to; the statement's "UNAVAILABLE-class error while
+                        \* no connection can be made" is about attempts to connect, and is silent about a call that dies with its connection)
+                        <<"C14.DefiniteResult", E.res \in {"ok", "unavailable", "pending"} \/ (E.res = "other" /\ downNow # {})>>,
                         <<"C14.SucceedsWhenEveryEndpointReachable", clean => E.res = "ok">>,
                         <<"C14.UnavailableOnlyWithAFailedDial", E.res = "unavailable" => sus1 # {}>> >>,
                      [s EXCEPT !.sus = IF E.res = "ok" THEN { k \in sus1 : s.want[k] # E.by } ELSE sus1, !.ncalls = @ + 1])
